@@ -17,11 +17,11 @@ PROPS = {
         'assumptions': COMMON_ASSUME,
     },
     'C19': {
-        'engines': [{'name': 'timeout'}, RUNTIME],
+        'engines': [{'name': 'timeout'}, {'name': 'trigger', 'quick_args': ['-n', '60'], 'thorough_args': ['-n', '600'], 'cache': False}, RUNTIME],
         'trusted_base': ['theorems in coq/props/C19.v about coq/theories/Timeout.v, Timer.v (proofs in TimerFacts.v) and Loops.v (LoopsFacts.v)'],
         'assumptions': COMMON_ASSUME + ['base timeout positive and at most MaxInt64 ns', 'time.AfterFunc fires once, not before its duration, and Timer.Stop reports whether it prevented the firing (Go runtime)',
                                         'Go select picks any ready case (the model lets a cancelled instance that is past its first select still deliver)',
-                                        'part (b): Timer.v is tied to the code by the runtime engine\'s observations of the real trigger (arm / trigger / election order and timing), not by a step-by-step comparison'],
+                                        'part (b): Timer.v is tied to the code by the trigger engine (public operations on the real trigger, triggers read from the channel compared with tm_public_run) and by the runtime engine\'s observations of the real trigger inside running nodes (arm / trigger / election order and timing)'],
         'notes': ['"eventually delivers" is proved as enabledness (a fired, un-superseded instance can always hand over its trigger); that the Go scheduler runs it is observed, not proved'],
     },
     'C17': {
@@ -76,7 +76,7 @@ PROPS = {
         'assumptions': COMMON_ASSUME + ['signature flags of the proof nodes = KeyManager.VerifyConsensusMessage over the proof\'s block reference bytes; seed flag = KeyManager.VerifyRandomSeed against the seed derived from the previous proof', 'committee ids pairwise distinct, total weight < 2^64', 'ValidateBlockCommitment is a function of (height, block, hash)'],
     },
     'C12': {
-        'engines': [{'name': 'world', 'quick_args': ['-n', '60'], 'thorough_args': ['-n', '1200']}, {'name': 'vbc', 'quick_args': ['-n', '1500'], 'thorough_args': ['-n', '20000']}, {'name': 'wire', 'quick_args': ['-n', '120'], 'thorough_args': ['-n', '2500']}, RUNTIME],
+        'engines': [{'name': 'world', 'quick_args': ['-n', '60'], 'thorough_args': ['-n', '1200']}, {'name': 'worldnil', 'quick_args': ['-n', '40'], 'thorough_args': ['-n', '800']}, {'name': 'vbc', 'quick_args': ['-n', '1500'], 'thorough_args': ['-n', '20000']}, {'name': 'wire', 'quick_args': ['-n', '120'], 'thorough_args': ['-n', '2500']}, RUNTIME],
         'corr_modules': ['Term', 'VBC', 'Wire', 'WireLH'],
         'trusted_base': ['theorems in coq/props/C12.v about coq/theories/Term.v, VBC.v, Leader.v (proofs in TermFacts.v)'],
         'assumptions': COMMON_ASSUME + ['Go recover() catches the run-time panics of slicing / nil dereference inside the guarded sections', 'membuffers unsafe reads stay inside the backing array for the byte strings tried (memory unsafety is not expressible in the model)'],
@@ -106,6 +106,8 @@ PROPS = {
     'C01': {
         'engines': [{'name': 'world', 'quick_args': ['-n', '60'], 'thorough_args': ['-n', '1200']},
                     {'name': 'worldkf1', 'quick_args': ['-n', '25'], 'thorough_args': ['-n', '300']}],
+        # agreement rests on "a correct member endorses one hash per view" (Own.E_unique, C10): an equivocating correct member is reported here too
+        'also_report': ('C10',),
         'corr_modules': ['Term'],
         'trusted_base': ['theorems in coq/props/C01.v about coq/theories/World.v (global run model over Term.v; proofs in Own.v, World.v, AbsSafety.v) and WorldKF1.v'],
         'assumptions': COMMON_ASSUME + ['unforgeability: a signature that verifies under a correct member\'s key was made by that member over exactly those header bytes (auth_msg); the harness key manager (per-member secret MAC) has this property',
